@@ -426,6 +426,15 @@ theorem safe_setCompacting {s : St} (c : Bool) (h : Safe s) : Safe (setCompactin
     constructor <;> simp only [setCompacting, PastPending, Dead, DeadR] at * <;> assumption
   all_goals (simp only [setCompacting, PastPending, Dead, DeadR] at *; assumption)
 
+theorem safe_noteFlush {s : St} (fs : List Nat) (h : Safe s) : Safe (noteFlush s fs) := by
+  obtain ⟨a1, a2, a3, a4, b1, b2, b3, bj, bd, c1, c2, c3, c4, d1⟩ := h
+  constructor
+  case jobs =>
+    intro k hk
+    obtain ⟨h0, hn0, hn1, hn2, h1, h2, h3, h4, h5, h6, h7, h8, h9, h10, hrec, h11, h12, h13, h14⟩ := bj k hk
+    constructor <;> simp only [noteFlush, PastPending, Dead, DeadR] at * <;> assumption
+  all_goals (simp only [noteFlush, PastPending, Dead, DeadR] at *; assumption)
+
 theorem safe_spawn {s : St} (k : JKind) (p : Content) (h : Safe s) : Safe (spawnJob s k p) := by
   obtain ⟨a1, a2, a3, a4, b1, b2, b3, bj, bd, c1, c2, c3, c4, d1⟩ := h
   constructor
